@@ -258,6 +258,9 @@ class Session:
         self.real_request = lc.httpx.request
         lc.httpx.request = self.fake_request
         self.client = lc.HttpBeaconClient()
+        if getattr(self, "prerun_id", None) is not None:
+            # the same client object was configured for another beacon id before (same configuration object)
+            self.client.run(self.cfg, dry_run=True, beacon_id=self.prerun_id, pid=999, user="other", computer="OTHER-PC", process="o.exe", internal_ip="10.0.0.8", arch="x86")
         self.client.run(self.cfg, dry_run=True, beacon_id=self.beacon_id, pid=4321, user="user", computer="WIN-PC", process="p.exe", internal_ip="10.0.0.7", arch="x64")
         # the client's random.choice of its check-in URI is an environment answer: enumerate it
         uris = self.client.bconfig.uris
@@ -385,9 +388,10 @@ def _pj(pk):
     return [[x.hex()[:48] if isinstance(x, bytes) else x for x in p] for p in pk]
 
 
-def run_history(cfg_kw, hist, seed, uri_choice=0, beacon_id=0x1234):
+def run_history(cfg_kw, hist, seed, uri_choice=0, beacon_id=0x1234, prerun_id=None):
     """-> (bad or None, session)"""
     s = Session(cfg_kw, seed, uri_choice, beacon_id)
+    s.prerun_id = prerun_id
     try:
         s.start()
         for ev in hist:
@@ -439,6 +443,15 @@ def chunk_ids(chunk, acc):
             acc.case((bid, hist), outcome=bad[0] if bad else len(s.wire))
             if bad:
                 acc.fail(bad[0] + "/beacon-id", {"kind": "ids", "beacon_id": bid, "history": list(hist), "seed": acc.seed}, bad[1], bad[2])
+    # a client object that is configured a second time (other id) before the session starts
+    for pre, bid in ((2, 0x1234), (0x1234, 2), (0x1234, 0x1234)):
+        for hist in (("C1", "P1", "C0"), ("C2", "P2", "C1", "P1e")):
+            acc.states += 1
+            acc.transitions += len(hist)
+            bad, s = run_history({}, hist, acc.seed, 0, bid, prerun_id=pre)
+            acc.case(("rerun", pre, bid, hist), outcome=bad[0] if bad else len(s.wire))
+            if bad:
+                acc.fail(bad[0] + "/client-reconfigured", {"kind": "ids", "beacon_id": bid, "prerun_id": pre, "history": list(hist), "seed": acc.seed}, bad[1], bad[2])
     acc.sample({"beacon_ids": ids, "note": "first ids: session seed begins with a zero byte"})
 
 
@@ -463,7 +476,7 @@ def run_chunk(chunk, acc):
 def replay(case):
     menu = dict(config_menu())
     if case["kind"] == "ids":
-        bad, s = run_history({}, tuple(case["history"]), case["seed"], 0, case["beacon_id"])
+        bad, s = run_history({}, tuple(case["history"]), case["seed"], 0, case["beacon_id"], prerun_id=case.get("prerun_id"))
         return {"ok": bad is None, "expected": bad[1] if bad else None, "observed": {"signature": bad[0], "detail": bad[2]} if bad else None}
     if case["kind"] == "history":
         kw = menu[case["config"]]
